@@ -11,6 +11,7 @@ import (
 	"strings"
 	"sync"
 	"unicode"
+	"unicode/utf8"
 )
 
 var (
@@ -262,7 +263,7 @@ func New(rules Rules) (*StatefulDefinition, error) {
 			}
 			compiled[key] = append(compiled[key], compiledRule{
 				Rule:   rule,
-				ignore: len(rule.Name) > 0 && unicode.IsLower(rune(rule.Name[0])),
+				ignore: isLowerFirst(rule.Name),
 				RE:     re,
 			})
 		}
@@ -304,6 +305,12 @@ restart:
 		symbols: symbols,
 	}
 	return d, nil
+}
+
+// isLowerFirst reports whether name starts with a lower-case letter (rules so named are elided).
+func isLowerFirst(name string) bool {
+	first, _ := utf8.DecodeRuneInString(name)
+	return len(name) > 0 && unicode.IsLower(first)
 }
 
 func (d *StatefulDefinition) MarshalJSON() ([]byte, error) {
